@@ -22,6 +22,12 @@ func loadUniverse(path string) *Universe {
 	if err := loadPoints(&u); err != nil {
 		vh.Die("universe drift: %s", err)
 	}
+	if len(u.KnownTimes) == 0 {
+		vh.Die("the universe names no times")
+	}
+	for _, t := range u.KnownTimes {
+		knownTimes[t] = true
+	}
 	return &u
 }
 
